@@ -258,7 +258,7 @@ func clientSub(r *ev.Run, name string) {
 			r.Violate(ev.Violation{Signature: sig, Sub: name, Message: msg, Case: c})
 		}
 		if sub.Evaluations%1009 == 5 {
-			r.Sample(map[string]any{"sub": name, "case": c, "outcome": oc})
+			sample(r, name, map[string]any{"sub": name, "case": c, "outcome": oc})
 		}
 	}
 	for _, client := range []string{"identity", "zstd"} {
